@@ -1,0 +1,11 @@
+//go:build verif
+
+package routing
+
+import "lunar/engine/streams"
+
+// VerifActiveStream returns the stream engine that currently serves traffic
+// (the pointer the SPOE message handler reads). Verification harness only.
+func (rd *HandlingDataManager) VerifActiveStream() *streams.Stream {
+	return rd.stream
+}
